@@ -41,9 +41,159 @@ def _argv_obs(kernel, fn, what):
     return obs
 
 
+
+# ---- K2/K3: loader -------------------------------------------------------
+def _mk_classes(t1, t2, tc, tb, u1, uc):
+    """Two classes built per path: C (test_a, test_b) on a possibly tagged base, D (test_x)."""
+    class Base(unittest.TestCase):
+        pass
+    if tb:
+        Base = tag(Base)
+
+    def m1(self):
+        pass
+
+    def m2(self):
+        pass
+
+    def mx(self):
+        pass
+    if t1:
+        m1 = tag(m1)
+    if t2:
+        m2 = tag(m2)
+    if u1:
+        mx = tag(mx)
+    C = type('C', (Base,), {'test_a': m1, 'test_b': m2, '__module__': 'vpmod'})
+    if tc:
+        C = tag(C)
+    D = type('D', (unittest.TestCase,), {'test_x': mx, '__module__': 'vpmod'})
+    if uc:
+        D = tag(D)
+    return C, D
+
+
+def k2_names(t1: bool, t2: bool, tc: bool, tb: bool) -> bool:
+    """
+    post: __return__
+    """
+    C, D = _mk_classes(t1, t2, tc, tb, False, False)
+    got = list(rtc.TaggedTestLoader(False).getTestCaseNames(C))
+    want = [n for n, t in (('test_a', t1), ('test_b', t2)) if t or tc or tb]
+    return got == want
+
+
+def _flatten(suite, out):
+    for t in suite:
+        if isinstance(t, unittest.TestSuite):
+            _flatten(t, out)
+        else:
+            out.append('%s.%s' % (type(t).__name__, t._testMethodName))
+    return out
+
+
+def k3_suite(t1: bool, t2: bool, tc: bool, tb: bool, u1: bool, uc: bool, check: bool, how: int) -> bool:
+    """
+    pre: 0 <= how < 4
+    post: __return__
+    """
+    import types
+    C, D = _mk_classes(t1, t2, tc, tb, u1, uc)
+    mod = types.ModuleType('vpmod')
+    mod.C = C
+    mod.D = D
+    printed = []
+    loader = rtc.TaggedTestLoader(check, printer=printed.append)
+    if how == 0:
+        suite = loader.loadTestsFromModule(mod)
+    elif how == 1:
+        suite = loader.loadTestsFromNames(['C', 'D'], mod)
+    elif how == 2:
+        suite = unittest.TestSuite([loader.loadTestsFromTestCase(C), loader.loadTestsFromTestCase(D)])
+    else:
+        suite = loader.loadTestsFromName('C', mod)
+    got = sorted(_flatten(suite, []))
+    wantC = ['C.' + n for n, t in (('test_a', t1), ('test_b', t2)) if t or tc or tb]
+    wantD = ['D.test_x'] if (u1 or uc) else []
+    if how == 3:
+        wantD = []
+    if check:
+        classes = (['vpmod.C'] if wantC else []) + (['vpmod.D'] if wantD else [])
+        return got == [] and sorted(printed) == classes
+    return got == sorted(wantC + wantD) and printed == []
+
+
+class _Item:
+    def __init__(self, name, obj):
+        self.name = name
+        self.obj = obj
+
+
+def k4_pytest(t1: bool, t2: bool, tc: bool, tf: bool, run: bool, show: bool) -> bool:
+    """
+    post: __return__
+    """
+    from tdda.referencetest import referencepytest as rp
+    import io
+    import contextlib
+
+    class K:
+        def test_a(self):
+            pass
+
+        def test_b(self):
+            pass
+    K.__module__ = 'vpmod'
+    if t1:
+        K.test_a = tag(K.test_a)
+    if t2:
+        K.test_b = tag(K.test_b)
+    if tc:
+        K = tag(K)
+
+    def test_f():
+        pass
+    test_f.__module__ = 'vpmod'
+    if tf:
+        test_f = tag(test_f)
+    k = K()
+    items = [_Item('test_a', k.test_a), _Item('test_b', k.test_b), _Item('test_f', test_f)]
+    opts = {'--tagged': run, '--istagged': show}
+
+    class Cfg:
+        def getoption(self, name, default=None):
+            return opts.get(name, default)
+    buf = io.StringIO()
+    with contextlib.redirect_stdout(buf):
+        rp.tagged(Cfg(), items)
+    names = [i.name for i in items]
+    want = [n for n, t in (('test_a', t1 or tc), ('test_b', t2 or tc), ('test_f', tf)) if t]
+    if show:
+        lines = [ln.split('.')[-1] for ln in buf.getvalue().splitlines() if ln]
+        wl = (['K'] if (t1 or t2 or tc) else []) + (['test_f'] if tf else [])
+        return names == [] and lines == wl
+    if run:
+        return names == want
+    return names == ['test_a', 'test_b', 'test_f']
+
+
 OBLIGATIONS = _argv_obs(
     'K1', 'k1_argv',
     'for every argv, _set_flags_from_argv returns (argv minus tdda flags in order, tagged, check) '
     'with tagged/check set iff -1/--tagged resp. -0/--istagged occurs anywhere')
+OBLIGATIONS += [
+    Ob('K2', 'k2_names', 'TaggedTestLoader.getTestCaseNames returns exactly the methods tagged themselves, or all '
+       'when the class or a base class is tagged', 'class with 2 test methods; 4 symbolic tag booleans (method a, '
+       'method b, class, base class)', timeout=60),
+    Ob('K3', 'k3_suite', 'loading through the tagged loader (module / names / per-class / single name): run mode '
+       'keeps exactly the tagged tests, each once, prints nothing; list mode keeps no test and prints exactly the '
+       'classes holding a tagged test, each once',
+       'two generated TestCase classes (2+1 methods), 6 symbolic tag booleans, check flag, 4 loading routes',
+       timeout=240),
+    Ob('K4', 'k4_pytest', 'referencepytest.tagged leaves exactly the tagged items under --tagged, none under '
+       '--istagged (printing each tagged class/function once), all otherwise',
+       '3 items (2 bound methods of one class, 1 function); 4 tag booleans, 2 option booleans',
+       timeout=120, stubs=['pytest config/items: plain objects with getoption / name / obj']),
+]
 ASSUMPTIONS = ['long tdda options occur at most once per command line; nothing but kind names follows --write']
 OUTSIDE = ['unittest.main itself; argv longer than the bound']
